@@ -8,6 +8,9 @@ let show_opt = function Some n -> string_of_int (int_of_nat n) | None -> "-"
 (* N travels as decimal int (times stay far below 2^62) *)
 let n_of_int n = if n = 0 then N0 else Npos (pos_of_int n)
 let int_of_n = function N0 -> 0 | Npos p -> int_of_pos p
+let stamp_of s =
+  let v = int_of_string (String.sub s 1 (String.length s - 1)) in
+  if s.[0] = 'f' then (n_of_int v, true) else (n_of_int (2 * v), false)
 
 let () =
   (* ckslab | shape | grid | coords  ->  starts | lens *)
@@ -48,13 +51,24 @@ let () =
   register "ckname" (fun t -> match ints t with
     | [tm] -> str_ints (List.map int_of_n (ck_name (n_of_int tm)))
     | _ -> "?args");
-  (* cklatest t1 t2 ... -> index-free: the time whose name is max(names), found by name equality in the handler input order *)
+  (* stamps: "i<t>" = int time t, "f<h>" = float time h/2 (h in half units) *)
+  (* ckstamp s -> character codes of the checkpoint name of the stamp *)
+  register "ckstamp" (fun t -> match t with
+    | [s] -> str_ints (List.map int_of_n (ck_stamp_name (stamp_of s)))
+    | _ -> "?args");
+  (* cklatest s1 s2 ... -> character codes of the name chosen by max(names, key = time of the name) *)
   register "cklatest" (fun t ->
-    let ts = ints t in
-    let names = List.map (fun x -> ck_name (n_of_int x)) ts in
+    match ck_latest_name (List.map (fun s -> ck_stamp_name (stamp_of s)) t) with
+    | None -> "none"
+    | Some nm -> str_ints (List.map int_of_n nm));
+  (* cklexlatest t1 t2 ... -> the lexicographic max of the int names (behaviour of the pinned tree) *)
+  register "cklexlatest" (fun t ->
+    let names = List.map (fun x -> ck_name (n_of_int x)) (ints t) in
     match ck_pymax ck_lex_lt names with
     | None -> "none"
     | Some nm -> str_ints (List.map int_of_n nm));
+  (* ckkey codes... -> the time (half units) read from a name *)
+  register "ckkey" (fun t -> string_of_int (int_of_n (ck_key (List.map n_of_int (ints t)))));
   register "ckparse" (fun t -> match ints t with
     | [tm] -> string_of_int (int_of_n (ck_parse_time (ck_fmt06 (n_of_int tm))))
     | _ -> "?args")
